@@ -117,6 +117,11 @@ def leavesUnder (g : G) : Nat → Nat → List Nat → TRes (List Nat)
       | some true => .ok (found ++ [start])
       | none => .exc
 
+/-- `getLeavesUnderNode` (:305): `mustBeRooted_` (as repaired: in an unrooted tree the sons of a son
+include the node itself, and next to another inner node the recursion would never end), then the recursion -/
+def leavesUnderQ (g : G) (n : Nat) : TRes (List Nat) :=
+  if !g.directed then .exc else leavesUnder g (g.nodes.length + 2) n []
+
 /-- `fillSubtreeMetNodes_` (:553) -/
 def subtreeNodes (g : G) : Nat → Nat → List Nat → TRes (List Nat)
   | 0, _, _ => .fuel
@@ -153,8 +158,10 @@ def climb (g : G) : Nat → Nat → List Nat → TRes (List Nat)
       | none => .exc
       | some f => climb g fuel f (acc ++ [n])
 
-/-- `getNodePathBetweenTwoNodes` (:476) -/
+/-- `getNodePathBetweenTwoNodes` (:520): `mustBeRooted_` first (as repaired: an unrooted tree is
+refused, the climbs below would run for ever between two nodes joined to each other alone) -/
 def nodePath (g : G) (a b : Nat) (includeAncestor : Bool) : TRes (List Nat) :=
+  if !g.directed then .exc else
   if !g.hasNode a || !g.hasNode b then .exc
   else
     match climb g (g.nodes.length + 2) a [], climb g (g.nodes.length + 2) b [] with
